@@ -3,6 +3,7 @@ package main
 import (
 	"fmt"
 	"net/http"
+	goruntime "runtime"
 	"strings"
 	"sync"
 
@@ -99,6 +100,61 @@ type world struct {
 	servers map[string]http.Handler // name -> ServeMux captured through verif_server(name, $server)
 	notes   []string                // verif_note() calls (diagnostics from the script)
 	gates   gateHub
+	barrier barrier
+	thrown  []string // controls handed to the VM's uncaught handler while serving
+}
+
+// barrier implements verif_sync(token): when armed for n requests, a handler parks there
+// until every request of the wave has either arrived or finished (a request that throws
+// before the sync point must not block the others). Not armed: a no-op.
+type barrier struct {
+	mu     sync.Mutex
+	cond   *sync.Cond
+	expect int
+	seen   map[string]bool
+}
+
+func (b *barrier) arm(n int) {
+	b.mu.Lock()
+	if b.cond == nil {
+		b.cond = sync.NewCond(&b.mu)
+	}
+	b.expect = n
+	b.seen = map[string]bool{}
+	b.mu.Unlock()
+}
+
+func (b *barrier) disarm() {
+	b.mu.Lock()
+	b.expect = 0
+	if b.cond != nil {
+		b.cond.Broadcast()
+	}
+	b.mu.Unlock()
+}
+
+func (b *barrier) mark(tok string) {
+	b.mu.Lock()
+	if b.expect > 0 && !b.seen[tok] {
+		b.seen[tok] = true
+		b.cond.Broadcast()
+	}
+	b.mu.Unlock()
+}
+
+func (b *barrier) arrive(tok string) {
+	b.mu.Lock()
+	defer b.mu.Unlock()
+	if b.expect == 0 {
+		return
+	}
+	if !b.seen[tok] {
+		b.seen[tok] = true
+		b.cond.Broadcast()
+	}
+	for b.expect > 0 && len(b.seen) < b.expect {
+		b.cond.Wait()
+	}
 }
 
 func newWorld() (*world, error) {
@@ -124,6 +180,16 @@ func newWorld() (*world, error) {
 		}
 		return data.NewNullValue()
 	}})
+	w.vm.AddFunc(&goFunc{name: "verif_yield", nargs: 0, fn: func(a []data.Value) data.GetValue {
+		goruntime.Gosched()
+		return data.NewNullValue()
+	}})
+	w.vm.AddFunc(&goFunc{name: "verif_sync", nargs: 1, fn: func(a []data.Value) data.GetValue {
+		if len(a) == 1 {
+			w.barrier.arrive(a[0].AsString())
+		}
+		return data.NewNullValue()
+	}})
 	w.vm.AddFunc(&goFunc{name: "verif_note", nargs: 1, fn: func(a []data.Value) data.GetValue {
 		if len(a) == 1 {
 			w.mu.Lock()
@@ -132,6 +198,30 @@ func newWorld() (*world, error) {
 		}
 		return data.NewNullValue()
 	}})
+	return w, nil
+}
+
+// newLoadedWorld creates a world and runs the registration script on it.
+func newLoadedWorld() (*world, error) {
+	w, err := newWorld()
+	if err != nil {
+		return nil, err
+	}
+	if err := w.load(handlerScript(), "/verif-inproc/c11.php"); err != nil {
+		return nil, fmt.Errorf("registration script: %v", err)
+	}
+	for _, name := range []string{"plain", "mw", "err", "gate", "seq", "seqerr", "lgate", "lgatemw"} {
+		if w.servers[name] == nil {
+			return nil, fmt.Errorf("registration script did not hand over server %q", name)
+		}
+	}
+	// ori.Run leaves its own closure installed; replace it by one that is safe to call from
+	// concurrent requests
+	w.vm.SetThrowControl(func(acl data.Control) {
+		w.mu.Lock()
+		w.thrown = append(w.thrown, ori.CtlString(acl))
+		w.mu.Unlock()
+	})
 	return w, nil
 }
 
